@@ -42,6 +42,10 @@ CLAIMED["C01"] = ("exploration", "4 C01/C02", "deterministic simulation: rank st
 CLAIMED["C02"] = ("exploration", "4 C01/C02", "deterministic simulation: every selection structure and 35 nestings with drawn parameters over bit vectors in clean, stale and dirty tail states; sorted-positions model for select and select_zero",
             "All structures are compared with one model, so answers cannot depend on structure or parameters; shapes target span thresholds, word counts mod 4 and inventory quanta.", RS_NOTE)
 
+CLAIMED["C15"] = ("exploration", "4 C15", "deterministic simulation of restart-from-durable-state: every serializable family serialized into a fault-injecting sink (short writes, EINTR, hard error) and reloaded by six paths (simulated short-read source, aligned zero-copy buffer at a slack offset, load_full/load_mem/load_mmap/mmap on a real file); the original instance is the oracle",
+            "Seeded search over (family, instance, I/O behaviour, loading path); every query of the type is compared between the original and each reloaded copy.",
+            "Trusted: epserde and the OS loaders as black boxes on the real side, SimSink/SimSrc. Torn/truncated files are outside the property.")
+
 NA = {
     "C03": "pure function of (values, n, u, selection back-end): no schedule, fault, stream or shared state for a simulator to own; the concurrent-builder clause is decided under C13",
     "C04": "pure function of (sequence, query): nothing to schedule or fault",
@@ -54,7 +58,6 @@ NA = {
 
 # properties whose checks are not built yet are listed as not claimed *for now*
 PENDING = {
-    "C15": "check not built yet in this snapshot (planned: simcheck serde world)",
 }
 
 def repo_commits(prefix):
